@@ -99,7 +99,7 @@ func mustDoN(h *ssa.Function, p func(ssa.Instruction) bool, depth int, visiting 
 	}
 	// a deferred call that satisfies P (or must do it) runs on every return
 	deferred := false
-	allInstrs(h, func(in ssa.Instruction) {
+	allInstrsShallow(h, func(in ssa.Instruction) {
 		d, ok := in.(*ssa.Defer)
 		if !ok || d.Block() != h.Blocks[0] {
 			return
@@ -213,7 +213,7 @@ func bodyFns(fn *ssa.Function, except func(*ssa.Function) bool) []*ssa.Function 
 // allInstrsDeep visits the instructions of bodyFns(fn).
 func allInstrsDeep(fn *ssa.Function, except func(*ssa.Function) bool, f func(ssa.Instruction)) {
 	for _, g := range bodyFns(fn, except) {
-		allInstrs(g, f)
+		allInstrsShallow(g, f)
 	}
 }
 
@@ -302,6 +302,53 @@ func constThroughN(v ssa.Value, body []*ssa.Function, depth int) *ssa.Const {
 		if x.Op != token.MUL || depth == 0 {
 			return nil
 		}
+		// load of a field of a struct type the reference tree does not have (state that moved from captured
+		// variables into a small object): what the functions of this body store into that field
+		if fa, isFA := x.X.(*ssa.FieldAddr); isFA {
+			if k, isNew := newTypeFieldKey(fa); isNew {
+				inBody := map[*ssa.Function]bool{}
+				for _, g := range body {
+					inBody[g] = true
+				}
+				var res *ssa.Const
+				n := 0
+				for _, sv := range gNewTypeStores[k] {
+					in, isIn := sv.(ssa.Instruction)
+					var owner *ssa.Function
+					if isIn {
+						owner = in.Parent()
+					} else if p, isP := sv.(*ssa.Parameter); isP {
+						owner = p.Parent()
+					}
+					if c0, isK := sv.(*ssa.Const); isK {
+						// a constant stored somewhere: accept only when every store of the field in this body is that constant
+						_ = c0
+					}
+					if owner != nil && !inBody[owner] {
+						continue
+					}
+					kk := constThroughN(sv, body, depth-1)
+					if kk == nil {
+						if _, isK := sv.(*ssa.Const); !isK && owner == nil {
+							continue
+						}
+						return nil
+					}
+					n++
+					if res != nil && (res.Value == nil) != (kk.Value == nil) {
+						return nil
+					}
+					if res != nil && res.Value != nil && res.Value.ExactString() != kk.Value.ExactString() {
+						return nil
+					}
+					res = kk
+				}
+				if n == 0 {
+					return nil
+				}
+				return res
+			}
+		}
 		cell := x.X
 		for i := 0; i < 4; i++ {
 			fv, ok := cell.(*ssa.FreeVar)
@@ -320,7 +367,7 @@ func constThroughN(v ssa.Value, body []*ssa.Function, depth int) *ssa.Const {
 				return nil
 			}
 			var bound ssa.Value
-			allInstrs(par, func(in ssa.Instruction) {
+			allInstrsShallow(par, func(in ssa.Instruction) {
 				if mc, ok := in.(*ssa.MakeClosure); ok && mc.Fn == cl && idx < len(mc.Bindings) {
 					bound = mc.Bindings[idx]
 				}
@@ -362,7 +409,7 @@ func constThroughN(v ssa.Value, body []*ssa.Function, depth int) *ssa.Const {
 			return nil
 		}
 		var res *ssa.Const
-		allInstrs(par, func(in ssa.Instruction) {
+		allInstrsShallow(par, func(in ssa.Instruction) {
 			mc, ok := in.(*ssa.MakeClosure)
 			if !ok || mc.Fn != cl || idx >= len(mc.Bindings) {
 				return
@@ -386,7 +433,7 @@ func failureFails(f *ssa.Function, isStep func(*ssa.Call) bool, depth int) (foun
 	var cand *ssa.Call
 	helperOK := true
 	helperWhy := ""
-	allInstrs(f, func(in ssa.Instruction) {
+	allInstrsShallow(f, func(in ssa.Instruction) {
 		cl, isCall := in.(*ssa.Call)
 		if !isCall {
 			return
@@ -397,7 +444,11 @@ func failureFails(f *ssa.Function, isStep func(*ssa.Call) bool, depth int) (foun
 		}
 		for _, a := range cl.Call.Args {
 			if mc, isMC := a.(*ssa.MakeClosure); isMC {
-				if mayDo(mc.Fn.(*ssa.Function), func(x ssa.Instruction) bool {
+				body := mc.Fn.(*ssa.Function)
+				if m := boundMethodTarget(mc); m != nil {
+					body = m
+				}
+				if mayDo(body, func(x ssa.Instruction) bool {
 					c2, ok2 := x.(*ssa.Call)
 					return ok2 && isStep(c2)
 				}) {
@@ -544,7 +595,7 @@ func findSteps(f *ssa.Function, isStep func(*ssa.Call) bool, depth int) []stepLo
 		defer delete(seen, g)
 		var res []stepLoc
 		for _, h := range withClosures(g) {
-			allInstrs(h, func(in ssa.Instruction) {
+			allInstrsShallow(h, func(in ssa.Instruction) {
 				cl, ok := in.(*ssa.Call)
 				if !ok {
 					return
@@ -564,7 +615,7 @@ func findSteps(f *ssa.Function, isStep func(*ssa.Call) bool, depth int) []stepLo
 		}
 		return res
 	}
-	allInstrs(f, func(in ssa.Instruction) {
+	allInstrsShallow(f, func(in ssa.Instruction) {
 		cl, ok := in.(*ssa.Call)
 		if !ok {
 			return
@@ -628,16 +679,17 @@ func siteIn(f *ssa.Function, in ssa.Instruction) ssa.Instruction {
 		if p == f {
 			return cur
 		}
-		if !gNewFuncs[p] {
-			if outermost(p) == f {
+		np := lexicalOutermost(p)
+		if !gNewFuncs[np] {
+			if np == lexicalOutermost(f) {
 				return cur
 			}
 			return nil
 		}
 		var site ssa.Instruction
 		n := 0
-		for _, s := range gCallSitesOf[p] {
-			if outermost(s.Parent()) == f || gNewFuncs[s.Parent()] {
+		for _, s := range gCallSitesOf[np] {
+			if lexicalOutermost(s.Parent()) == lexicalOutermost(f) || gNewFuncs[lexicalOutermost(s.Parent())] {
 				site = s
 				n++
 			}
@@ -686,7 +738,7 @@ func condLiftCut(f *ssa.Function, p func(ssa.Instruction) bool) func(from, to *s
 	pkg := pkgOf(outermost(f))
 	type edge struct{ from, to *ssa.BasicBlock }
 	cutEdges := map[edge]bool{}
-	allInstrs(f, func(in ssa.Instruction) {
+	allInstrsShallow(f, func(in ssa.Instruction) {
 		cl, ok := in.(*ssa.Call)
 		if !ok {
 			return
@@ -800,7 +852,7 @@ func boundMethodTarget(mc *ssa.MakeClosure) *ssa.Function {
 		return nil
 	}
 	var out *ssa.Function
-	allInstrs(w, func(in ssa.Instruction) {
+	allInstrsShallow(w, func(in ssa.Instruction) {
 		if ci, ok := in.(ssa.CallInstruction); ok {
 			if h := ci.Common().StaticCallee(); h != nil {
 				out = h
@@ -808,4 +860,21 @@ func boundMethodTarget(mc *ssa.MakeClosure) *ssa.Function {
 		}
 	})
 	return out
+}
+
+
+// hostFn: the function of f's body (f, a helper the reference tree does not have, a bound method body) that
+// contains in; rules about a construct that lies wholly inside one function (a loop, a selection between two
+// candidates) are evaluated in the function that holds the construct today.
+func hostFn(f *ssa.Function, in ssa.Instruction) *ssa.Function {
+	if in == nil || in.Parent() == nil {
+		return f
+	}
+	h := in.Parent()
+	for _, g := range bodyFns(f, nil) {
+		if g == h {
+			return h
+		}
+	}
+	return f
 }
